@@ -14,9 +14,11 @@ const (
 	verifLoopRequest   // the event loop has received an API request and not yet handled it
 	verifPopTake       // a stream writer is about to take the next RPC out of its queue
 	verifSendValidated // a validated message is about to be handed to the event loop
+	verifSendBatch     // a message batch is about to be handed to the event loop
 )
 
 var (
+	verifYieldBatchFn     func(b *MessageBatch, point int)
 	verifYieldMsgFn       func(msg *Message, point int)
 	verifYieldQueueFn     func(q *rpcQueue, point int)
 	verifYieldFn          func(point int)
@@ -48,5 +50,11 @@ func verifYieldQueue(q *rpcQueue, point int) {
 func verifYieldMsg(msg *Message, point int) {
 	if f := verifYieldMsgFn; f != nil {
 		f(msg, point)
+	}
+}
+
+func verifYieldBatch(b *MessageBatch, point int) {
+	if f := verifYieldBatchFn; f != nil {
+		f(b, point)
 	}
 }
